@@ -52,19 +52,53 @@ def _kw(i=0):
                  start_time=Time(58849.5, format="mjd"))][i % 3]
 
 
+COVER = {}
+MEMS = ("C", "F", "T", "S")          # memory layout of the data: C order, Fortran order, transposed view, strided view
+ALIGNS = ("bottom", "center", "top")
+
+
+def concretise(kwi):
+    """kwi -> (metadata set, memory layout, freq_align, set attributes by assignment after construction?)"""
+    return kwi % 3, MEMS[kwi % 4], ALIGNS[(kwi // 4 + kwi) % 3], (kwi // 2) % 2 == 1
+
+
+def relayout(data, mem):
+    """the same values in another memory layout"""
+    if mem == "F":
+        return np.asfortranarray(data)
+    if mem == "T":                       # what a reader's z.transpose(...) leaves behind
+        perm = (0, 2, 1) + tuple(range(3, data.ndim))[::-1]
+        inv = tuple(int(i) for i in np.argsort(perm))
+        return np.ascontiguousarray(data.transpose(perm)).transpose(inv)
+    if mem == "S":
+        big = np.full((2 * data.shape[0] + 1,) + data.shape[1:-1] + (2 * data.shape[-1],), 7 - 5j, dtype=data.dtype)
+        big[1::2, ..., ::2] = data
+        return big[1::2, ..., ::2]
+    return np.ascontiguousarray(data)
+
+
 def build(a, b, shape, basis, dtype, dask, kwi=0, chunk_axis=0):
     """a, b: complex arrays of P lattice values -> DualPolarizationSignal of shape (T, nchan, 2, *extra)"""
     from common import pb, da
-    A = np.asarray(a).reshape(shape)
-    B = np.asarray(b).reshape(shape)
-    data = np.stack([A, B], axis=2).astype(dtype)
+    A = np.resize(np.asarray(a), shape)           # (a layout the lattice does not fill exactly repeats it cyclically)
+    B = np.resize(np.asarray(b), shape)
+    kwset, mem, align, assign = concretise(kwi)
+    data = relayout(np.stack([A, B], axis=2).astype(dtype), mem)
     if dask:
         # chunk_axis: any axis of the data (time, channel, polarisation, trailing), or data.ndim = every axis at once
         ch = [s for s in data.shape]
         for ax in (range(data.ndim) if chunk_axis % (data.ndim + 1) == data.ndim else [chunk_axis % (data.ndim + 1)]):
             ch[ax] = max(1, data.shape[ax] // 3)
         data = da.from_array(data, chunks=tuple(ch))
-    return pb.DualPolarizationSignal(data, pol_type=basis, **_kw(kwi))
+    kw = dict(_kw(kwset), freq_align=align)
+    if assign:
+        # the same state reached by assignment: built with the other values first
+        other = "circular" if basis == "linear" else "linear"
+        z = pb.DualPolarizationSignal(data, pol_type=other, **dict(kw, freq_align="center"))
+        z.pol_type = basis
+        z.freq_align = align
+        return z
+    return pb.DualPolarizationSignal(data, pol_type=basis, **kw)
 
 
 def apply(sig, hist):
@@ -75,8 +109,10 @@ def apply(sig, hist):
             sig = sig.to_stokes()
         elif op == "to_intensity":
             sig = sig.to_intensity()
-        else:
+        elif op in ("I", "Q", "U", "V"):
             sig = sig[op] if (len(hist) % 2) else getattr(sig, "stokes" + op)
+        else:
+            sig = sig[op]               # not a component name: must be refused
     return sig
 
 
@@ -143,14 +179,20 @@ def replay_group(chk, basis, hist, recs, shape, dtype, dask, kwi, chunk_axis=0, 
     With batch = {...} (description of the batch this run belongs to) the real calls are made now but the result is
     judged later: -> (result signal, finish(data=None) -> number judged)."""
     import common
+    size = int(np.prod(shape))
+    if size != len(recs):               # layouts that the lattice does not fill exactly (even channel counts): repeat it
+        recs = [recs[i % len(recs)] for i in range(size)]
     kind = recs[0]["cur"]["kind"]
     o = np.array([r["o"] for r in recs], dtype=float)
     a, b = o[:, 0] + 1j * o[:, 1], o[:, 2] + 1j * o[:, 3]
     if z is None:
         z = build(a, b, shape, basis, dtype, dask, kwi, chunk_axis)
+    ck = "%s/%s/%s-nchan/%s" % (kind, z.freq_align, "even" if z.nchan % 2 == 0 else "odd", concretise(kwi)[1])
+    COVER[ck] = COVER.get(ck, 0) + 1
     where = "%s %s -> %s shape=%r %s %s [session converts %s data first]%s" % (
         basis, "[X,Y]" if basis == "linear" else "[L,R]", ".".join(hist) or "(nothing)", tuple(z.shape), dtype,
-        ("dask chunks %r" % (z.data.chunks,)) if dask else "numpy", SESSION[0],
+        (("dask chunks %r" % (z.data.chunks,)) if dask else "numpy") + " memory=%s freq_align=%s%s nchan=%d" % (
+            concretise(kwi)[1], z.freq_align, "(assigned)" if concretise(kwi)[3] else "", z.nchan), SESSION[0],
         (" [%s]" % batch["what"]) if batch else "")
 
     def case(i):
@@ -227,14 +269,57 @@ def gen_cases(chk):
         groups.setdefault((c["basis"], tuple(c["hist"])), []).append(c)
     for g in groups.values():
         g.sort(key=lambda c: c["o"])
+    REFUSED.clear()
+    for k in [k for k, g in groups.items() if g[0]["cur"]["kind"] == "refused"]:
+        REFUSED[k] = groups.pop(k)[0]
     return groups
+
+
+REFUSED = {}
+
+
+def replay_refusals(chk, groups):
+    """component access by a key that is not a component name must raise KeyError (generated by BadItem)"""
+    import common
+    n = 0
+    P, layouts = lattice_layouts(groups)
+    for i, ((basis, hist), rec) in enumerate(sorted(REFUSED.items())):
+        parent = groups[(basis, hist[:-1])]
+        shape = layouts[i % len(layouts)]
+        size = int(np.prod(shape))
+        o = np.array([parent[j % P]["o"] for j in range(size)], dtype=float)
+        dtype, dask = ("complex128", "complex64")[i % 2], i % 3 == 1
+        z = build(o[:, 0] + 1j * o[:, 1], o[:, 2] + 1j * o[:, 3], shape, basis, dtype, dask, i, i)
+        key = hist[-1]
+        case = {"kind": "refusal", "basis": basis, "hist": list(hist), "dtype": dtype, "dask": dask, "i": i}
+        try:
+            y = apply(z, list(hist[:-1]))
+        except Exception as e:  # noqa
+            chk.violation("gen:raised", "%r | %s %r" % (e, basis, hist), case)
+            continue
+        n += 1
+        try:
+            got = y[key]
+        except KeyError:
+            continue
+        except Exception as e:  # noqa
+            chk.violation("gen:key-wrong-exception", "%s[%r] raised %r, expected KeyError" % (type(y).__name__, key, e), case)
+            continue
+        which = [k for k in "IQUV" if np.array_equal(common.materialise(got), common.materialise(y[k]))]
+        chk.violation("gen:key-not-refused", "%s[%r] is not refused: it returns %r%s (only 'I', 'Q', 'U', 'V' name components)"
+                      % (type(y).__name__, key, got, (", the data of component %s" % which) if which else ""), case)
+    chk.validated += n
+    chk.notes["keys_refused"] = n
+    chk.notes["runs_by_kind_align_parity_memory"] = dict(sorted(COVER.items()))
 
 
 def lattice_layouts(groups):
     P = len(next(iter(groups.values())))
     base = round(P ** 0.25)
     assert base ** 4 == P and all(len(g) == P for g in groups.values()), "lattice incomplete"
-    return P, [(P, 1), (base ** 3, base), (base ** 2, base, base), (base, base, base, base), (base ** 2, base ** 2), (1, base, base ** 3)]
+    up = lambda k: -(-P // k)           # noqa
+    return P, [(P, 1), (up(2), 2), (base ** 3, base), (base ** 2, base, base), (up(8), 4, 2), (base, base, base, base),
+               (base ** 2, base ** 2), (up(6), 6), (1, base, base ** 3), (up(12), 2, 3, 2)]
 
 
 def replay_gen(chk, groups, rnd):
@@ -387,7 +472,7 @@ def flat4(d, j):
 def record_events(x, basis, dtype, dask, first_id=0, chunk_axis=0):
     """drive the real code on samples x (n,1,2) and record events"""
     import common
-    z = build(x[:, 0, 0], x[:, 0, 1], (len(x), 1), basis, dtype, dask, 0, chunk_axis)
+    z = build(x[:, 0, 0], x[:, 0, 1], (len(x), 1), basis, dtype, dask, chunk_axis, chunk_axis)
 
     def mat(sig):
         d = common.materialise(sig)
@@ -552,6 +637,7 @@ def run(chk):
     chk.validated += nchild
     chk.notes["second_session_complex64_first"] = {"lattice_samples": nchild, "trace_events": len(child_events)}
     run_batches(chk, groups)
+    replay_refusals(chk, groups)
     run_trace(chk, rnd, child_events)
     run_histories(chk, rnd)
     chk.assumptions += [
@@ -583,6 +669,19 @@ def replay(doc):
             p = build(np.array([1 + 2j]), np.array([3 - 1j]), (1, 1), b, first, False)
             p.to_circular().to_linear().to_stokes()
             p.to_linear().to_circular()
+    if c["kind"] == "refusal":
+        chk = framework.Check(PID, "quick", 0)
+        chk._known = []
+        groups = gen_cases(chk)
+        keep = {k: v for k, v in REFUSED.items() if list(k[1]) == c["hist"] and k[0] == c["basis"]}
+        REFUSED.clear()
+        REFUSED.update(keep)
+        replay_refusals(chk, groups)
+        for key, desc, _ in chk.violations:
+            print("VIOLATION property=C13 replay=(this case)  # %s: %s" % (key, desc[:300]))
+        if not chk.violations:
+            print("case passes")
+        return 1 if chk.violations else 0
     if c["kind"] == "batch":
         chk = framework.Check(PID, c.get("tier", "quick"), 0)
         chk._known = []
